@@ -148,7 +148,11 @@ def handle (p : Nat) (r : Req) : Option (R String) :=
     let π ← getProof (p := p) r
     let ξs ← asFes (← need r "xis")
     let ros ← asFes (← need r "ros")
-    pure <| exceptReply (check vk comms z vs π ξs ros) fun b => [("b", vBool b)]
+    -- what `succinct_check` consumed of the two streams (C11), when it ran through
+    let used : List (String × Val) := match succinctCheck vk comms z vs π ξs ros with
+      | .ok (_, a, b) => [("used_xi", .n (ξs.length - a.length)), ("used_ro", .n (ros.length - b.length))]
+      | .error _ => []
+    pure <| exceptReply (check vk comms z vs π ξs ros) fun b => [("b", vBool b)] ++ used
   | "ipa.batch_open" =>
     let polys ← getPolys (p := p) r
     let comms ← getComms (p := p) r
